@@ -145,6 +145,45 @@ fn main() {
             }
             0
         }
+        Some("mate-debug") if a.len() >= 3 => {
+            // how often the mate hunt delivers each special shape (development aid)
+            let n: u64 = a[2].parse().unwrap_or(1000);
+            let (mut dbl, mut dbl_sliders, mut only_n, mut none) = (0u64, 0u64, 0u64, 0u64);
+            let mut shown = 0;
+            for i in 0..n {
+                let mut t = tape::Tape::record(99, i);
+                let p = gen::generate(&mut t, 10);
+                let mates = p.mating_moves();
+                if mates.is_empty() {
+                    none += 1;
+                    continue;
+                }
+                let mut d = false;
+                let mut ds = false;
+                for &m in &mates {
+                    let q = p.make(m);
+                    if let Some(k) = q.king_sq(q.stm) {
+                        let att = q.attackers(k, q.stm ^ 1);
+                        if att.len() >= 2 {
+                            d = true;
+                            if att.iter().all(|&x| matches!(refmodel::kind_of(q.sq[x as usize]), refmodel::B | refmodel::R | refmodel::Q)) {
+                                ds = true;
+                            }
+                        }
+                    }
+                }
+                let on = mates.iter().all(|&m| p.kind(m) == refmodel::MoveKind::PromoN);
+                dbl += d as u64;
+                dbl_sliders += ds as u64;
+                only_n += on as u64;
+                if (ds || on) && shown < 6 {
+                    shown += 1;
+                    println!("{} mates={:?}", p.fen(), mates.iter().map(|m| m.text()).collect::<Vec<_>>());
+                }
+            }
+            println!("of {n}: no mate {none}, double-check mate {dbl}, by two sliders {dbl_sliders}, only knight promotions mate {only_n}");
+            0
+        }
         _ => usage(),
     };
     std::process::exit(code);
